@@ -959,6 +959,12 @@ class Built:
         if prov != "model" and kind in ("falsy_len", "falsy_bool"):
             # a listener that is falsy when it is attached (an empty journal / recorder, a container subclass)
             methods["__len__" if kind == "falsy_len" else "__bool__"] = (lambda self_: 0) if kind == "falsy_len" else (lambda self_: False)
+        if prov != "model" and kind == "prop_handlers":
+            # a forwarding provider: every callback name is a PROPERTY that hands out the handler
+            import types as _t
+            for nm, fn in list(methods.items()):
+                if not isinstance(fn, property) and callable(fn):
+                    methods[nm] = property(lambda self_, _f=fn: _t.MethodType(_f, self_))
         if kind == "equal":
             # value-like objects (frozen dataclasses, named tuples, ORM rows): every provider object of the scenario
             # compares and hashes equal to every other one; what an object IS stays a matter of identity
